@@ -108,6 +108,8 @@ Tun0 == [ opened |-> FALSE, started |-> FALSE, startFail |-> FALSE, chdone |-> F
           s2cDeliv |-> 0, idleC2S |-> -1, idleS2C |-> -1, takenC2S |-> 0, takenS2C |-> 0, revUsed |-> -1, chid |-> 0,
           \* the channel has recorded its end (hook cli.close.marked); Err() was first read before that
           closeMarked |-> FALSE, chEarly |-> FALSE,
+          \* Err() of the channel as read at a quiescent point after Done() ("ok" = nil), "none" before
+          chSettled |-> "none",
           \* live heap of the process (MiB, after a full collection): first observation of the scenario, maximum
           heapBase |-> -1, heapMax |-> -1,
           \* the transport refused a single Send (harness fault "sendfail"): the RPC it belonged to is disturbed in
@@ -619,8 +621,9 @@ OQuiesce(e) ==
   /\ q' = [ at |-> TRUE, final |-> e.final, blocked |-> e.blocked, h |-> e.h, parked |-> e.parked,
             ctab |-> e.ctab, stab |-> e.stab, nsrv |-> e.nsrv, qc2s |-> e.qc2s, qs2c |-> e.qs2c,
             g |-> e.g, chdone |-> e.chdone ]
-  /\ tun' = IF tun.baseG = -1 /\ e.g >= 0 /\ tun.started /\ DOMAIN rp = {} /\ ~e.chdone
-            THEN [ tun EXCEPT !.baseG = e.g ] ELSE tun
+  /\ tun' = LET t1 == IF tun.baseG = -1 /\ e.g >= 0 /\ tun.started /\ DOMAIN rp = {} /\ ~e.chdone
+                       THEN [ tun EXCEPT !.baseG = e.g ] ELSE tun
+            IN IF "cherr" \in DOMAIN e /\ t1.chSettled = "none" THEN [ t1 EXCEPT !.chSettled = e.cherr ] ELSE t1
   /\ UNCHANGED <<cfg, ws, rp, bad, now, meta>>
 
 OReset ==
@@ -924,8 +927,13 @@ C04_HandlersReleased ==
      /\ \A b \in BlockedOps : b[1] # "s"
 C04_ClientObserves == (q.at /\ FCExpected /\ RealCause /\ QuietWire /\ tun.opened /\ RealCli /\ q.parked = <<>>) => (q.chdone \/ tun.startFail)
 C04_ServerObserves == (q.at /\ FCExpected /\ RealCause /\ QuietWire /\ tun.opened /\ RealSrv /\ q.parked = <<>>) => tun.serveRet
+\* Err() is nil after a clean close and the cause otherwise: judged on what Err() returns once the channel has
+\* settled (read at the first quiescent point after Done())
 C04_ErrNilIffClean ==
-  (tun.chdone /\ tun.firstCause # "" /\ RealSrv) => ((tun.chErr = "ok") <=> (tun.firstCause \in {"close", "stop"}))
+  (tun.chSettled # "none" /\ tun.firstCause # "" /\ RealSrv) => ((tun.chSettled = "ok") <=> (tun.firstCause \in {"close", "stop"}))
+\* ... and it says so from the moment Done() fires (finding D14: it can still say "context canceled" for a moment)
+C04_ErrStableAtDone ==
+  (tun.chdone /\ tun.chSettled # "none" /\ tun.chErr \in {"ok", "err"}) => tun.chErr = tun.chSettled
 C04_FailFast == \A r \in ORpcs : ~rp[r].failFastBad
 
 \* ---- C03 -------------------------------------------------------------------
@@ -1140,7 +1148,7 @@ Formulas == [
   C07_HandlerReleased |-> C07_HandlerReleased,
   C04_CallsEnd |-> C04_CallsEnd, C04_HandlersReleased |-> C04_HandlersReleased,
   C04_ClientObserves |-> C04_ClientObserves, C04_ServerObserves |-> C04_ServerObserves,
-  C04_ErrNilIffClean |-> C04_ErrNilIffClean, C04_FailFast |-> C04_FailFast,
+  C04_ErrNilIffClean |-> C04_ErrNilIffClean, C04_ErrStableAtDone |-> C04_ErrStableAtDone, C04_FailFast |-> C04_FailFast,
   C14_ClientTableExact |-> C14_ClientTableExact, C14_ServerTableExact |-> C14_ServerTableExact,
   C14_GoroutinesBaseline |-> C14_GoroutinesBaseline, C14_NothingAfterBothEnds |-> C14_NothingAfterBothEnds, C14_NothingAfterTunnel |-> C14_NothingAfterTunnel,
   C10_RefusedAfterShutdown |-> C10_RefusedAfterShutdown, C10_GracefulStopReturns |-> C10_GracefulStopReturns,
